@@ -293,12 +293,27 @@ def _domain(inp):
     return "valid"
 
 
-def _check_rates(inp, c_full, fail, rs, H=None):
+def _rates_of(dims, t1, t2, targets):
+    """[(population rate, coherence rate)] per subsystem that the property text promises for one relaxation source"""
+    n = len(dims)
+    out = []
+    for q in range(n):
+        active = targets is None or q in targets
+        t1q = _per_qubit(t1, q, n) if active else None
+        t2q = _per_qubit(t2, q, n) if active else None
+        g_pop = 0.0 if t1q is None else 1.0 / t1q
+        g_coh = (1.0 / t2q) if t2q is not None else (0.0 if t1q is None else 0.5 / t1q)
+        out.append((g_pop, g_coh))
+    return out
+
+
+def _check_rates(inp, c_full, fail, rs, H=None, rates=None):
     """decay law, independence, trace and hermiticity of the generator built from the real collapse operators"""
     dims = inp["dims"]
     n = len(dims)
     dim = int(np.prod(dims))
-    tg = inp.get("targets")
+    if rates is None:
+        rates = _rates_of(dims, inp["t1"], inp["t2"], inp.get("targets"))
     for C in c_full:
         if not np.all(np.isfinite(C)):
             fail("non-finite", "finite collapse operators", "a collapse operator contains inf/nan")
@@ -312,11 +327,7 @@ def _check_rates(inp, c_full, fail, rs, H=None):
         if not np.allclose(L.conj().T, Lh, atol=1e-9 * (1 + np.abs(L).max())):
             fail("L(rho)^dag != L(rho^dag)", "equal", "generator does not preserve hermiticity")
         for q in range(n):
-            active = tg is None or q in tg
-            t1q = _per_qubit(inp["t1"], q, n) if active else None
-            t2q = _per_qubit(inp["t2"], q, n) if active else None
-            g_pop = 0.0 if t1q is None else 1.0 / t1q
-            g_coh = (1.0 / t2q) if t2q is not None else (0.0 if t1q is None else 0.5 / t1q)
+            g_pop, g_coh = rates[q]
             d = dims[q]
             a_q = _embed(_a(d), q, dims)
             n_q = a_q.conj().T @ a_q
@@ -340,11 +351,7 @@ def _check_rates(inp, c_full, fail, rs, H=None):
         rho = P @ _rand_rho(rs, dim) @ P
         rho = rho / np.trace(rho)
         L = _lind(c_full, rho, H)
-        active = tg is None or q in tg
-        t1q = _per_qubit(inp["t1"], q, n) if active else None
-        t2q = _per_qubit(inp["t2"], q, n) if active else None
-        g_pop = 0.0 if t1q is None else 1.0 / t1q
-        g_coh = (1.0 / t2q) if t2q is not None else (0.0 if t1q is None else 0.5 / t1q)
+        g_pop, g_coh = rates[q]
         r_q, L_q = _ptrace_keep(rho, q, dims), _ptrace_keep(L, q, dims)
         if (abs(L_q[1, 1] + g_pop * r_q[1, 1]) > 1e-9 or abs(L_q[0, 1] + g_coh * r_q[0, 1]) > 1e-9
                 or np.abs(L_q[2, :]).max() > 1e-9 or np.abs(L_q[:, 2]).max() > 1e-9):
@@ -448,6 +455,134 @@ def _oracle(inp, corr_fail, rs, solve=False, impl=None):
                     fail(repr(e), "solver runs", "qutip.mesolve failed on the real (H, c_ops)")
     return len(fails)
 
+
+
+# ------------------------------------------------------------------------------------------------
+# one processor queried several times (the answer must not depend on the history of the object)
+# ------------------------------------------------------------------------------------------------
+def _history_case(rng):
+    base = _valid_case(rng, force=rng.choice(["scalar", "scalar", "list"]))
+    while _branch(base) == {"none"}:
+        base = _valid_case(rng, force=rng.choice(["scalar", "list"]))
+    n = len(base["dims"])
+    steps = []
+    added = False
+    for _ in range(rng.randint(2, 4)):
+        if not added and rng.random() < 0.3:
+            if rng.random() < 0.6:
+                tg = sorted(rng.sample(range(n), rng.randint(1, n)))
+                a = _dy(rng, 8, 64)
+                steps.append(dict(op="add_relax", t1=a, t2=rng.choice([None, a, 2 * a]), targets=tg))
+            else:
+                steps.append(dict(op="add_decoh", rate=rng.choice([0.25, 1.0, 4.0]), target=rng.randrange(n)))
+            added = True
+        steps.append(dict(op=rng.choice(["qobjevo", "qobjevo", "noisy_pulses", "pulses_ideal"])))
+    if sum(1 for st in steps if st["op"] in ("qobjevo", "noisy_pulses")) < 2:
+        steps += [dict(op="noisy_pulses"), dict(op="qobjevo")]
+    return dict(kind="history", dims=base["dims"], t1=base["t1"], t2=base["t2"], steps=steps)
+
+
+def _history_queries(inp):
+    """the relaxation sources of a history case as plain set-up inputs for the model (history independent)"""
+    qs = [dict(kind="relax", dims=inp["dims"], t1=inp["t1"], t2=inp["t2"], targets=None)]
+    for st in inp["steps"]:
+        if st["op"] == "add_relax":
+            qs.append(dict(kind="relax", dims=inp["dims"], t1=st["t1"], t2=st["t2"], targets=st["targets"]))
+    return qs
+
+
+def _run_history(inp):
+    """-> list of (step index, op, [full collapse matrices]) for every noisy query, or ("Raised", type, step)"""
+    import qutip
+    from qutip_qip.device import Processor
+    from qutip_qip.noise import RelaxationNoise, DecoherenceNoise
+    dims = list(inp["dims"])
+    out = []
+    with warnings.catch_warnings(), contextlib.redirect_stdout(io.StringIO()):
+        warnings.simplefilter("ignore")
+        k = -1
+        try:
+            p = Processor(len(dims), dims=dims, t1=_cp(inp["t1"]), t2=_cp(inp["t2"]))
+            for k, st in enumerate(inp["steps"]):
+                op = st["op"]
+                if op == "qobjevo":
+                    _, c_ops = p.get_qobjevo(noisy=True)
+                    out.append((k, op, [c(0).full() for c in c_ops]))
+                elif op == "pulses_ideal":       # inspection without device noise (still goes through process_noise)
+                    p.get_noisy_pulses(device_noise=False, drift=False)
+                elif op == "noisy_pulses":
+                    cs = []
+                    for pulse in p.get_noisy_pulses(device_noise=True, drift=True):
+                        _, new = pulse.get_noisy_qobjevo(dims=dims)
+                        cs += [c(0).full() for c in new]
+                    out.append((k, op, cs))
+                elif op == "add_relax":
+                    p.add_noise(RelaxationNoise(t1=st["t1"], t2=st["t2"], targets=list(st["targets"])))
+                elif op == "add_decoh":
+                    d = dims[st["target"]]
+                    p.add_noise(DecoherenceNoise(math.sqrt(st["rate"]) * qutip.destroy(d), targets=st["target"]))
+        except Exception as e:
+            return ("Raised", type(e).__name__, k)
+    return out
+
+
+def _check_history(inp, models, corr, rs, disagree=True):
+    """models: canonical model outcomes for _history_queries(inp) (or None: oracle only)"""
+    from qutip import destroy, num
+    dims = inp["dims"]
+    n = len(dims)
+    res = _run_history(inp)
+    if isinstance(res, tuple):
+        corr.oracle_fail(inp, f"{res[1]} at step {res[2]}", "every query succeeds",
+                         "admissible relaxation times rejected when one processor is queried repeatedly")
+        return
+    queries = _history_queries(inp)
+    for (k, op, cs) in res:
+        # sources in force at step k
+        srcs = [0] + [1 + j for j, st in enumerate([s for s in inp["steps"] if s["op"] == "add_relax"])
+                      if inp["steps"].index(st) < k]
+        rates = [[0.0, 0.0] for _ in range(n)]
+        for j in srcs:
+            qd = queries[j]
+            for q, (gp, gc) in enumerate(_rates_of(dims, qd["t1"], qd["t2"], qd["targets"])):
+                rates[q][0] += gp
+                rates[q][1] += gc
+        extra = []
+        for i, st in enumerate(inp["steps"]):
+            if st["op"] == "add_decoh" and i < k:
+                rates[st["target"]][0] += st["rate"]
+                rates[st["target"]][1] += st["rate"] / 2
+                extra.append(_embed(math.sqrt(st["rate"]) * destroy(dims[st["target"]]).full(), st["target"], dims))
+        what = f"query {k} ({op}) on a processor that was queried before" if k > 0 else f"first query ({op})"
+        _check_rates(inp, cs, lambda o, e, w: corr.oracle_fail(dict(inp, failing_step=k), o, e, w + " - " + what), rs,
+                     rates=[tuple(r) for r in rates])
+        if models is not None and disagree:
+            exp = list(extra)
+            bad = None
+            for j in srcs:
+                m = models[j]
+                if m[0] != "Ok":
+                    bad = m
+                    break
+                for (q, kd, sg, r) in m[1]:
+                    base = destroy(dims[q]).full() if kd == 0 else num(dims[q]).full()
+                    exp.append(_embed(sg * math.sqrt(float(r)) * base, q, dims))
+            if bad is not None:
+                corr.disagree(inp, "Ok", repr(bad), "model rejects a relaxation source that the processor accepted")
+                continue
+            got = list(cs)
+            missing = 0
+            for E in exp:
+                for j2, G in enumerate(got):
+                    if G.shape == E.shape and np.allclose(G, E, atol=1e-9):
+                        got.pop(j2)
+                        break
+                else:
+                    missing += 1
+            if missing or got:
+                corr.disagree(dict(inp, failing_step=k), f"{len(cs)} c_ops, {len(got)} unexpected",
+                              f"{len(exp)} terms, {missing} missing",
+                              "collapse operators of a repeatedly queried processor differ from the (history independent) model - " + what)
 
 # ------------------------------------------------------------------------------------------------
 # combinations of the shipped noise models on random compiled circuits (oracle only; not modelled)
@@ -736,7 +871,10 @@ def _compare(corr, inp, impl, model, pr):
 def correspond(ctx):
     corr = Corr(rule="relaxation set-up cases (1-3 subsystems of dimension 2/3; scalar, per-qubit list, mixed, None; dyadic times; "
                      "boundary t2=2*t1, inner, t1-only, t2-only; optional targets) + malformed stream; non-trivial = at least one "
-                     "subsystem has a time (a collapse term or a rejection is produced); plus operator tables and dissipator cases")
+                     "subsystem has a time (a collapse term or a rejection is produced); plus operator tables and dissipator cases; plus history "
+                     "cases: ONE processor queried 2-4 times (get_qobjevo(noisy=True), get_noisy_pulses(device_noise=True), "
+                     "get_noisy_pulses(device_noise=False) in between, add_noise of a second RelaxationNoise/DecoherenceNoise) - the model's answer does not "
+                     "depend on the history of the object, so every query must give the model's terms for the sources in force")
     rng = ctx.rng
     rs = np.random.RandomState(ctx.seed + 15)
     cases = _corpus()
@@ -751,7 +889,11 @@ def correspond(ctx):
     cases += [_malformed_case(rng) for _ in range(nm)]
     for c in cases:
         c.setdefault("targets", None)
-    models = [_model_canon(m) for m in _coq_setup(f"C15_{ctx.tier}", cases)]
+    hist = [_history_case(rng) for _ in range(ctx.n(60, 500))]
+    hq = [_history_queries(h) for h in hist]
+    flat = [q for qs in hq for q in qs]
+    allm = [_model_canon(m) for m in _coq_setup(f"C15_{ctx.tier}", cases + flat)]
+    models, hm = allm[:len(cases)], allm[len(cases):]
     n_solve = 0
     for inp, model in zip(cases, models):
         impl = _impl_noise(inp)
@@ -772,6 +914,17 @@ def correspond(ctx):
             n_solve += 1
         _oracle(inp, corr.oracle_fail, rs, solve=solve, impl=(impl, pr))
     corr.extra["solver_checks"] = n_solve
+    pos = 0
+    nq = 0
+    for h, qs in zip(hist, hq):
+        ms = hm[pos:pos + len(qs)]
+        pos += len(qs)
+        corr.count("history:" + json.dumps(h, sort_keys=True), nontrivial=True, sample=None)
+        corr.tally("history:" + "+".join(sorted({st["op"] for st in h["steps"]})))
+        nq += sum(1 for st in h["steps"] if st["op"] in ("qobjevo", "noisy_pulses"))
+        _check_history(h, ms, corr, rs)
+    corr.extra["history_cases"] = len(hist)
+    corr.extra["history_queries"] = nq
     _tables_and_dissipator(ctx, corr)
     # combinations of noise models (oracle only)
     ncombo = ctx.n(12, 120)
@@ -822,13 +975,19 @@ def search(ctx, broken):
         cases.append(dict(kind="relax", dims=d, t1=1.0, t2=2.5, targets=None))
         cases.append(dict(kind="relax", dims=d, t1=[1.0] * (n + 1), t2=None, targets=None))
     cases += [_valid_case(rng) for _ in range(300)] + [_malformed_case(rng) for _ in range(150)]
+    for d in ([2], [3], [2, 3]):
+        _check_history(dict(kind="history", dims=d, t1=1.0, t2=1.5, steps=[dict(op="qobjevo"), dict(op="noisy_pulses"), dict(op="qobjevo")]),
+                       None, c, rs)
+    for _ in range(60):
+        _check_history(_history_case(rng), None, c, rs)
     for inp in cases:
         inp.setdefault("targets", None)
         _oracle(inp, c.oracle_fail, rs, solve=False)
         if len(c.oracle_failures) >= 8:
             break
     # smallest first
-    c.oracle_failures.sort(key=lambda f: (len(f["input"]["dims"]), isinstance(f["input"]["t1"], list), isinstance(f["input"]["t2"], list)))
+    c.oracle_failures.sort(key=lambda f: (len(f["input"]["dims"]), isinstance(f["input"]["t1"], list), isinstance(f["input"]["t2"], list),
+                                          len(f["input"].get("steps", []))))
     return c.oracle_failures
 
 
@@ -838,6 +997,8 @@ def replay(ctx, rec):
     rs = np.random.RandomState(7)
     if inp.get("kind") == "combo":
         _run_combo(inp, lambda o, e, w: c.oracle_fail(inp, o, e, w))
+    elif inp.get("kind") == "history":
+        _check_history({k: v for k, v in inp.items() if k != "failing_step"}, None, c, rs)
     elif inp.get("kind") == "relax":
         inp.setdefault("targets", None)
         _oracle(inp, c.oracle_fail, rs, solve=True)
